@@ -227,6 +227,12 @@ def dateparse(val: str, t: type[DateTimeT]) -> DateTimeT:
             If `val` is not a date string or does not resolve to an instance of
             the target datetime type.
     """
+    if issubclass(t, datetime.time):
+        # The generic parser drops the UTC offset of a time-only string.
+        with contextlib.suppress(ValueError):
+            time = datetime.time.fromisoformat(val)
+            if time.tzinfo is not None:
+                return time  # type: ignore[return-value]
     if val.startswith("-P") and issubclass(t, datetime.timedelta):
         # The parser has no notion of a negative duration; see `isoformat`.
         return -dateparse(val[1:], t)  # type: ignore[return-value]
